@@ -387,6 +387,28 @@ def prime_cert(p):
     return {"d": L(d), "r": r, "bases": bases}
 
 
+def small_factor(v):
+    """a non-trivial factor of the composite v (trial division, then Pollard rho); an untrusted hint"""
+    import math
+    for p in (2, 3, 5, 7, 11, 13, 17, 19, 23, 29, 31, 37):
+        if v % p == 0 and v != p:
+            return p
+    r = math.isqrt(v)
+    if r * r == v:
+        return r
+    for c in range(1, 50):
+        x = y = 2
+        d = 1
+        f = lambda z: (z * z + c) % v
+        while d == 1:
+            x = f(x)
+            y = f(f(y))
+            d = math.gcd(abs(x - y), v)
+        if d != v:
+            return d
+    return 1
+
+
 def check_c13(rep):
     quick = rep.tier == "quick"
     wd = workdir("C13")
@@ -474,10 +496,57 @@ def check_c13(rep):
         ps = [int(x) for x in g["primes"]]
         blines.append(json.dumps({"ev": "genbig", "n": g["n"], "bits": g["bits"], "panic": bool(g["panic"]), "primes": [arith.limbs(x) for x in ps],
                                   "hmod": [arith.limbs(x // (2 * g["n"])) for x in ps], "certs": [prime_cert(x) if x > 37 and x % 2 == 1 else {"d": [], "r": 0, "bases": []} for x in ps]}))
+    # the primality test in both directions, and the default moduli / security table
+    import random as _random
+    prng = _random.Random(rep.seed)
+    cand = set(range(0, 300 if quick else 5000)) | {2047, 3277, 4033, 4681, 8321, 561, 1105, 1729, 41041, 825265, 321197185, 5394826801, 232250619601,
+            9746347772161, 3215031751, 341550071728321, 3825123056546413051, 2 ** 61 - 1, 2 ** 31 - 1, (2 ** 31 - 1) ** 2 // 4 * 0 + 2147483647 * 2147483629, 1000003 ** 2, 1073741827 ** 2 % 2 ** 61}
+    for k in range(10, 62, 3 if quick else 1):
+        for j in range(-2, 3) if quick else range(-12, 13):
+            v = 2 ** k + j
+            if 0 <= v < 2 ** 61:
+                cand.add(v)
+    for _ in range(15 if quick else 600):
+        cand.add(prng.randrange(2 ** 20, 2 ** 61) | 1)
+        a, b = prng.randrange(2 ** 14, 2 ** 30) | 1, prng.randrange(2 ** 14, 2 ** 30) | 1
+        cand.add(a * b)
+    for g in bigev[:12] if quick else bigev:
+        for x in g["primes"][:2]:
+            cand.update([int(x), int(x) + 2 * g["n"]])
+    cand = sorted(v for v in cand if 0 <= v < 2 ** 61 and v != 1)       # (1 is not a Modulus: Modulus::new refuses it)
+    ipfile = os.path.join(wd, "isprime.txt")
+    open(ipfile, "w").write("\n".join(str(v) for v in cand) + "\n")
+    pev = [json.loads(l) for l in hcv(["c13", "isprime", ipfile], timeout=600).splitlines()]
+    nprime = 0
+    for e in pev:
+        v = int(e["v"])
+        rec = {"ev": "isprime", "v": arith.limbs(v), "flag": bool(e["flag"]), "direct": bool(e["direct"]), "panic": bool(e["panic"])}
+        if e["flag"] and v > 37:
+            rec["cert"] = prime_cert(v) if v % 2 == 1 else {"d": [], "r": 0, "bases": []}
+            nprime += 1
+        elif not e["flag"] and v > 1:
+            d = small_factor(v)
+            rec["d"], rec["f"] = arith.limbs(d), arith.limbs(v // d)
+        blines.append(json.dumps(rec))
+    dev = [json.loads(l) for l in hcv(["c13", "defaults"], timeout=600).splitlines()]
+    for e in dev:
+        ps = [int(x) for x in e["primes"]]
+        blines.append(json.dumps({"ev": "default", "n": e["n"], "sec": e["sec"], "maxbits": min(int(e["maxbits"]), 2 ** 31 - 1), "maxbits_panic": bool(e["maxbits_panic"]), "panic": bool(e["panic"]),
+                                  "primes": [arith.limbs(x) for x in ps], "hmod": [arith.limbs(x // (2 * e["n"])) if e["n"] else [] for x in ps],
+                                  "certs": [prime_cert(x) if x > 37 and x % 2 == 1 else {"d": [], "r": 0, "bases": []} for x in ps]}))
+    allp = bigev + pev + dev
     pbad, pst = arith.validate(blines, wd, name="primes", module="Trace_Primes", chunks=14, timeout=2500)
     for b in pbad:
-        g = bigev[b[0] - 1]
-        rep.violation({"kind": "generated_moduli", "n": g["n"], "bits": g["bits"]}, {"event": g})
+        g = allp[b[0] - 1]
+        if g["ev"] == "isprime":
+            rep.violation({"kind": "is_prime", "says_prime": g["flag"], "panic": g["panic"]}, {"event": g})
+        elif g["ev"] == "default":
+            rep.violation({"kind": "default_moduli", "n": g["n"], "sec": g["sec"]}, {"event": g})
+        else:
+            rep.violation({"kind": "generated_moduli", "n": g["n"], "bits": g["bits"]}, {"event": g})
+    rep.cov["is_prime_values_decided_both_ways"] = len(pev)
+    rep.cov["is_prime_values_prime"] = nprime
+    rep.cov["default_moduli_events"] = len(dev)
     rep.cov["generated_moduli_decided_by_miller_rabin_certificates"] = sum(len(g["primes"]) for g in bigev if not g["panic"])
     rep.cov["states"] += pst["distinct"]
     rep.cov["transitions"] += pst["generated"]
